@@ -86,6 +86,83 @@ func (b *Block) String(symbols *datalog.SymbolTable) string {
 	)
 }
 
+// checkSymbols verifies that every symbol index used by the block is defined by
+// the symbol table accumulated up to and including this block. A block that
+// refers to an index beyond it would silently take the meaning of whatever
+// string a later block declares at that index.
+func (b *Block) checkSymbols(symbols *datalog.SymbolTable) error {
+	limit := uint64(datalog.OFFSET + symbols.Len())
+	var checkTerm func(t datalog.Term) error
+	checkTerm = func(t datalog.Term) error {
+		switch v := t.(type) {
+		case datalog.String:
+			if uint64(v) >= limit {
+				return ErrMissingSymbols
+			}
+		case datalog.Variable:
+			if uint64(v) >= limit {
+				return ErrMissingSymbols
+			}
+		case datalog.Set:
+			for _, e := range v {
+				if err := checkTerm(e); err != nil {
+					return err
+				}
+			}
+		}
+		return nil
+	}
+	checkPredicate := func(p datalog.Predicate) error {
+		if uint64(p.Name) >= limit {
+			return ErrMissingSymbols
+		}
+		for _, t := range p.Terms {
+			if err := checkTerm(t); err != nil {
+				return err
+			}
+		}
+		return nil
+	}
+	checkRule := func(r datalog.Rule) error {
+		if err := checkPredicate(r.Head); err != nil {
+			return err
+		}
+		for _, p := range r.Body {
+			if err := checkPredicate(p); err != nil {
+				return err
+			}
+		}
+		for _, e := range r.Expressions {
+			for _, op := range e {
+				if v, ok := op.(datalog.Value); ok {
+					if err := checkTerm(v.ID); err != nil {
+						return err
+					}
+				}
+			}
+		}
+		return nil
+	}
+	for _, f := range *b.facts {
+		if err := checkPredicate(f.Predicate); err != nil {
+			return err
+		}
+	}
+	for _, r := range b.rules {
+		if err := checkRule(r); err != nil {
+			return err
+		}
+	}
+	for _, c := range b.checks {
+		for _, q := range c.Queries {
+			if err := checkRule(q); err != nil {
+				return err
+			}
+		}
+	}
+	return nil
+}
+
 type FactSet []Fact
 
 func (fs FactSet) String() string {
